@@ -14,6 +14,7 @@ package scheduler
 //@   assert failure_carries_the_reason: at builtin.send#0 :: arg1 == err
 //@   assert success_only_when_complete: at builtin.send#1 :: arg1 == nil && ctrl.dispatcher.torrent.Torrent.whole
 //@   ensures removed: !(h in s.torrentControls)
+//@   ensures partial_file_deleted: old(h in s.torrentControls) && !old(s.torrentControls[h]).dispatcher.torrent.Torrent.whole ==> (old(s.torrentControls[h]).dispatcher.name in s.sched.torrentArchive.delreq)
 //@   ensures waiters_answered: old(h in s.torrentControls) ==> answered(old(s.torrentControls[h]))
 //@   ensures others_kept: forall k core.InfoHash :: k != h ==> ((k in s.torrentControls) <==> old(k in s.torrentControls)) && s.torrentControls[k] == old(s.torrentControls[k])
 //@   ensures sends_monotone: forall ch int :: sent(ch) >= old(sent(ch))
